@@ -53,7 +53,17 @@ def exactness(report, where, label, poly, clause="3", finite_domain=None):
     folds the expression over the whole finite domain."""
     inner, floored = unwrap_floor(poly)
     if not floored:
-        report.ok("R-EXACT", where, label, {"kind": "exact integer arithmetic, no truncation",
+        from ..engines.affine import flatten_floors
+        _flat, truncated = flatten_floors(inner)
+        worst = max([t.rounds for t in truncated], default=0)
+        if worst >= 2:
+            report.violation("R-EXACT", where, label,
+                             {"form": inner.show()[:200], "float_roundings_before_truncation": worst,
+                              "why": "a term is truncated after two or more float roundings: it can come out one unit short"},
+                             clause)
+            return
+        report.ok("R-EXACT", where, label, {"kind": "exact integer arithmetic, no truncation" if not truncated else
+                                             "truncation of exact / once-rounded terms only",
                                              "form": inner.show()[:160]}, clause)
         return
     if inner.rounds >= 2:
@@ -89,10 +99,23 @@ def srt_site(ctx, report, ev):
     sec0 = "int($stamp.split(':')[2].split(',')[0])"
     sec1 = "int($stamp.split(':')[2].split(',')[1])"
     vocab = {f(0), f(1), f(2), sec0, sec1}
+    # alternative spelling: the seconds field (with its fraction) read as one decimal number
+    dec = {k: f"{k}($stamp.split(':')[2].replace(',', '.'))" for k in ("float", "Fraction", "Decimal")}
     n = 0
     for o in outs:
         if isinstance(o.value, Raised):
             continue
+        if isinstance(o.value, Poly):
+            from ..engines.affine import base_atoms
+            atoms = base_atoms(unwrap_floor(o.value)[0])
+            alt = [a for a in dec.values() if a in atoms]
+            if alt:
+                exp = {f(0): US_H, f(1): US_M, alt[0]: US_S}
+                label = "hh:mm:ss,mmm -> microseconds (seconds read as one decimal number)"
+                check_affine(report, "R-AFFINE", fn, label, o.value, exp, {f(0), f(1), alt[0]}, "1", want_floor=True)
+                exactness(report, fn, label, o.value)
+                n = 2
+                continue
         comma = not any(c == "',' not in $stamp.split(':')[2]" and b for c, b in o.conds)
         if comma:
             exp = {f(0): US_H, f(1): US_M, sec0: US_S, sec1: US_MS}
